@@ -452,6 +452,13 @@ pub fn shrinks(sc: &Scenario, names: &[&str]) -> Vec<Scenario> {
             out.push(c);
         }
     }
+    if let Some(r) = &sc.real {
+        for ns in 0..r.size {
+            let mut c = sc.clone();
+            c.real.as_mut().unwrap().size = ns;
+            out.push(c);
+        }
+    }
     if let Some(val) = &sc.val {
         for nt in ty_shrinks(&sc.ty) {
             if let Some(nv) = coerce(&sc.ty, &nt, val) {
